@@ -33,7 +33,7 @@ theorem Arg11.rep {t : Bytes} {cs : List Cell} (h : Arg11 t cs) (n : Nat) (hn : 
   have happ : ∀ rest, repText n t ++ rest = fmtDec (n : Int) ++ 120 :: (t ++ rest) := by
     intro rest; simp [repText]
   have hlen := repText_length n t
-  refine ⟨hstart, by simp, ?_, ?_, ?_, ?_⟩
+  refine ⟨hstart, by simp, ?_, ?_, ?_, ?_, ?_⟩
   · -- next_arg_offset
     have := h.off
     unfold nextArgOffset
@@ -43,6 +43,9 @@ theorem Arg11.rep {t : Bytes} {cs : List Cell} (h : Arg11 t cs) (n : Nat) (hn : 
   · -- can_precede_range
     obtain ⟨c, r, hc⟩ := List.exists_cons_of_ne_nil h.ne
     exact ⟨decide (c.type ≠ ArgVal.tyA), by simp [canPrecedeRange, deref, bind, Except.bind, pure, Except.pure, hc]⟩
+  · -- the element type: the type of the repeated value's first cell
+    obtain ⟨c, r, hc⟩ := List.exists_cons_of_ne_nil h.ne
+    exact ⟨c.type, by simp [elemTy, deref, bind, Except.bind, pure, Except.pure, hc]⟩
   · intro rest fuel prev ab fe hs hf
     obtain ⟨f, rfl⟩ : ∃ f, fuel = f + 1 := ⟨fuel - 1, by omega⟩
     have hse := h.scan rest f [] 0 false hs (by omega)
